@@ -45,6 +45,7 @@ func init() {
 		"bytes.IndexByte":                          bytesIndexByte,
 		"bytes.IndexFunc":                          bytesIndexFunc,
 		"bytes.Contains":                           bytesContains,
+		"bytes.HasPrefix":                          bytesHasPrefix,
 		"bytes.Equal":                              bytesEqual,
 		"bytes.Trim":                               bytesTrimLike,
 		"bytes.TrimRight":                          bytesTrimLike,
@@ -686,8 +687,53 @@ func matchCountingPredicate(fn *ssa.Function) (c int64, k int64, cell *ssa.FreeV
 	return
 }
 
+// matchAt: the bytes of needle n occur in b at offset i (n's length must be a small literal for the expanded form).
+func matchAt(u *Unit, arr string, b, n Val, i string) (string, bool) {
+	k, ok := litInt(n.S[1])
+	if !ok || k.Sign() < 0 || k.Int64() > 16 {
+		return "", false
+	}
+	var cs []string
+	for j := int64(0); j < k.Int64(); j++ {
+		cs = append(cs, eq(sel(arr, add(b.S[0], add(i, intLit(j)))), sel(arr, add(n.S[0], intLit(j)))))
+	}
+	return and(cs...), true
+}
+
+// bytesContains: precise when the needle's length is a small literal (e.g. a composite literal): the result is true
+// exactly when the needle occurs at some offset.
 func bytesContains(f *Frame, st *state, callee *ssa.Function, args []Val, ins ssa.Instruction, resT types.Type) *Val {
-	return pureHavoc(f, st, callee, args, ins, resT)
+	u := f.u
+	b, n := args[0], args[1]
+	arr := u.arr(st.mem, byteSite, SBV(8))
+	w := u.ctx.freshConst("cw", SInt)
+	mw, ok := matchAt(u, arr, b, n, w)
+	if !ok {
+		return pureHavoc(f, st, callee, args, ins, resT)
+	}
+	res := u.ctx.freshConst("contains", SBool)
+	u.ctx.assert("lib:bytes.Contains", implies(res, and(le("0", w), le(add(w, n.S[1]), b.S[1]), mw)))
+	mi, _ := matchAt(u, arr, b, n, "i!")
+	u.ctx.assert("lib:bytes.Contains", implies(not(res), fmt.Sprintf("(forall ((i! Int)) (! (=> (and (<= 0 i!) (<= (+ i! %s) %s)) (not %s)) :pattern ((select %s (+ %s i!)))))", n.S[1], b.S[1], mi, arr, b.S[0])))
+	return &Val{T: resT, S: []string{res}}
+}
+
+// bytesHasPrefix: b starts with the bytes of p.
+func bytesHasPrefix(f *Frame, st *state, callee *ssa.Function, args []Val, ins ssa.Instruction, resT types.Type) *Val {
+	u := f.u
+	b, p := args[0], args[1]
+	arr := u.arr(st.mem, byteSite, SBV(8))
+	m0, ok := matchAt(u, arr, b, p, "0")
+	if !ok {
+		res := u.ctx.freshConst("hasprefix", SBool)
+		w := u.ctx.freshConst("hpw", SInt)
+		u.ctx.assert("lib:bytes.HasPrefix", implies(res, and(le(p.S[1], b.S[1]), quantRange(u, "0", p.S[1], func(i string) string {
+			return eq(sel(arr, add(b.S[0], i)), sel(arr, add(p.S[0], i)))
+		}))))
+		u.ctx.assert("lib:bytes.HasPrefix", implies(not(res), or(lt(b.S[1], p.S[1]), and(le("0", w), lt(w, p.S[1]), not(eq(sel(arr, add(b.S[0], w)), sel(arr, add(p.S[0], w))))))))
+		return &Val{T: resT, S: []string{res}}
+	}
+	return &Val{T: resT, S: []string{u.ctx.def("hasprefix", SBool, and(le(p.S[1], b.S[1]), m0))}}
 }
 
 func bytesEqual(f *Frame, st *state, callee *ssa.Function, args []Val, ins ssa.Instruction, resT types.Type) *Val {
